@@ -389,8 +389,8 @@ func verifC18_program() {
 	}
 	var in []ev
 	var written []byte
-	open := true     // the connection is usable
-	eof := false     // a normal close has been read
+	open := true             // the connection is usable
+	eof := false             // a normal close has been read
 	var rd, wd time.Duration // read / write deadline as ghost instants (0: none)
 	rdSet, wdSet := false, false
 	trace := ""
